@@ -293,8 +293,8 @@ func c17Explore(rep *explore.Report, w *world.World, c c17Case, depth int, kinds
 		}
 		envChanged := false
 		for _, hh := range history {
-			if strings.HasSuffix(hh, "="+world.FGone) {
-				envChanged = true // the environment removed an object: the final state legitimately differs
+			if strings.HasSuffix(hh, "="+world.FGone) || strings.HasSuffix(hh, "="+world.FExistsOther) {
+				envChanged = true // somebody else removed or created an object: the final state legitimately differs
 			}
 		}
 		if got := normFinal(dryFinal); got != want && !envChanged {
@@ -325,7 +325,7 @@ func c17Explore(rep *explore.Report, w *world.World, c c17Case, depth int, kinds
 					// the fault was absorbed; the final state must still be the reference one
 					gone := false
 					for _, hh := range h {
-						gone = gone || strings.HasSuffix(hh, "="+world.FGone)
+						gone = gone || strings.HasSuffix(hh, "="+world.FGone) || strings.HasSuffix(hh, "="+world.FExistsOther)
 					}
 					if got := normFinal(after); got != want && !gone {
 						report("final-state-differs", "helper reported success after a fault but the final state differs from the uninterrupted run:\n--- uninterrupted\n"+want+"--- interrupted\n"+got, h)
@@ -362,6 +362,10 @@ func faultKindsFor(c *world.Call, kinds []string) []string {
 			if c.Verb == "create" {
 				out = append(out, k)
 			}
+		case world.FExistsOther:
+			if c.Verb == "create" && c.Resource == "statefulsets" {
+				out = append(out, k)
+			}
 		}
 	}
 	return out
@@ -375,8 +379,8 @@ func init() {
 		if thorough {
 			depth = 3
 		}
-		kinds := []string{world.FErr500, world.FTimeout, world.FConflict, world.FGone, world.FExists, world.FCrashBefore, world.FCrashAfter}
-		rep.Rule = fmt.Sprintf("the real helper.Upgrade on the API model: selector{app=web | app In (web) | app=web and app Exists | app Exists | app Exists and tier NotIn (cache) | app=web and canary DoesNotExist} x revision populations of size 0..3 over {matching, non-matching, foreign-owned} x Advanced set{absent, present equal, present different, present with a superset of the spec (extra template labels/annotations, node selector, optional fields)}; for every API call position of the run x fault kind %v applicable to the verb, then re-run from the resulting state with a further fault at every position, to depth %d, finally re-run without faults; oracle: at the delete of the built-in set an Advanced set with equal spec and status exists, propagation is Orphan, every revision listed at the start carries the marker and no longer matches the selector; no write on pods/claims; a fault-free re-run succeeds and the final state equals the uninterrupted run's (UIDs of the new object normalised; not compared when a `gone` fault, i.e. a concurrent deletion by someone else, changed the world). Built-in sets whose spec uses a field the Advanced API does not have (start ordinal, minReadySeconds, claim retention policy) are run once each: the built-in set may only go if the Advanced spec says everything the built-in spec says (judged against the built-in object, not against the helper's own conversion), and a helper that declines leaves no change behind. Non-trivial = at least one fault injected.", kinds, depth)
+		kinds := []string{world.FErr500, world.FTimeout, world.FConflict, world.FGone, world.FExists, world.FExistsOther, world.FCrashBefore, world.FCrashAfter}
+		rep.Rule = fmt.Sprintf("the real helper.Upgrade on the API model: selector{app=web | app In (web) | app=web and app Exists | app Exists | app Exists and tier NotIn (cache) | app=web and canary DoesNotExist} x revision populations of size 0..3 over {matching, non-matching, foreign-owned} x Advanced set{absent, present equal, present different, present with a superset of the spec (extra template labels/annotations, node selector, optional fields)}; for every API call position of the run x fault kind %v applicable to the verb, then re-run from the resulting state with a further fault at every position, to depth %d, finally re-run without faults; oracle: at the delete of the built-in set an Advanced set with equal spec and status exists, propagation is Orphan, every revision listed at the start carries the marker and no longer matches the selector; no write on pods/claims; a fault-free re-run succeeds and the final state equals the uninterrupted run's (UIDs of the new object normalised; not compared when a `gone` or `existsOther` fault, i.e. a concurrent deletion or a concurrent creation of a different object by someone else, changed the world). Built-in sets whose spec uses a field the Advanced API does not have (start ordinal, minReadySeconds, claim retention policy) are run once each: the built-in set may only go if the Advanced spec says everything the built-in spec says (judged against the built-in object, not against the helper's own conversion), and a helper that declines leaves no change behind. Non-trivial = at least one fault injected.", kinds, depth)
 		rep.Assumptions = []string{"the caller re-runs the helper with the same built-in object it started with", "API model of DESIGN.md Appendix A; the built-in controller and the garbage collector are not running during the upgrade"}
 		var cases []c17Case
 		var revPops [][]string
